@@ -987,5 +987,528 @@ theorem U.sqrt_spec {s : Nat} (hs : s < 32) (hn : 1 ≤ n) (hx : WF (2 ^ s) n x)
 
 end sqrt
 
+
+/-! ### `cbrt` -/
+section cbrt
+variable {w n : Nat} {x : List Nat}
+
+theorem cbrtStep_ok (hw : 2 ≤ w) (hn : 1 ≤ n) (hx : WF w n x) (hX : 1 ≤ U w x) {G : Nat}
+    (hG2 : G * G < M w n) (hbound : 3 * G + 7 < M w n) (h1 : 1 < w * n) (dbg : Bool) :
+    StepOk w n 2 (U w x) G (U.cbrtStep dbg w x) := by
+  intro s hs hinv hG
+  have hw1 : 1 ≤ w := by omega
+  have hspos : 0 < U w s := by
+    rcases Nat.eq_zero_or_pos (U w s) with h0 | h0
+    · rw [h0] at hinv; simp at hinv; omega
+    · exact h0
+  unfold U.cbrtStep
+  have hss : U w s * U w s ≤ G * G := Nat.mul_le_mul hG hG
+  obtain ⟨ss, a1, a2, a3⟩ := uMul_ok hs hs (by omega) dbg
+  rw [a1]; dsimp only [Outcome.bind]
+  have hsspos : 0 < U w s * U w s := Nat.mul_pos hspos hspos
+  obtain ⟨q, hq1, hq2, hq3⟩ := uDiv_ok hw1 hn hx a2 (by omega)
+  rw [hq1]; dsimp only
+  have hqle : U w q ≤ U w s + 6 := by
+    rw [hq3, a3]
+    have : U w x / (U w s * U w s) < U w s + 7 := by
+      rw [Nat.div_lt_iff_lt_mul hsspos]
+      have e : (U w s + 1) ^ (2 + 1) = U w s * U w s * U w s + 3 * (U w s * U w s) + 3 * U w s + 1 := by
+        ring
+      rw [e] at hinv
+      nlinarith [Nat.mul_le_mul hspos hspos]
+    omega
+  obtain ⟨s2, b1, b2, b3⟩ := uShl_ok hw1 hs h1 (by omega) dbg
+  rw [b1]; dsimp only
+  obtain ⟨t, ht1, ht2, ht3⟩ := uAdd_ok b2 hq2 (by omega) dbg
+  rw [ht1]; dsimp only
+  have hB : 3 < B w := by
+    have : 2 ^ 2 ≤ 2 ^ w := Nat.pow_le_pow_right (by decide) hw
+    unfold B; omega
+  obtain ⟨r, rem, hr1, hr2, hr3, hr4⟩ := UI.u_divRemDigit_spec (d := 3) (by decide) hB ht2
+  rw [hr1]
+  refine ⟨r, rfl, hr4, ?_⟩
+  unfold newton
+  rw [Nat.pow_two, ← a3, ← hq3]
+  have e : 2 * U w s + U w q = U w t := by rw [ht3, b3]; ring
+  rw [e]; omega
+
+theorem cbrtNewton_spec {s : Nat} (hs1 : 1 ≤ s) (hs : s < 32) (hn : 1 ≤ n) (hx : WF (2 ^ s) n x)
+    (hbig : 2 ^ 128 ≤ U (2 ^ s) x) (dbg : Bool) :
+    ∃ r, U.cbrtNewton dbg (2 ^ s) x = .ok r ∧ WF (2 ^ s) n r ∧ IsRoot 3 (U (2 ^ s) x) (U (2 ^ s) r) := by
+  have hw : 2 ≤ 2 ^ s := by
+    calc 2 = 2 ^ 1 := rfl
+      _ ≤ 2 ^ s := Nat.pow_le_pow_right (by decide) hs1
+  obtain ⟨b1, b2, b3, b4, b5⟩ := bitLen_facts hx hbig
+  have hW := bits_gt_128 hx hbig
+  unfold U.cbrtNewton
+  rw [hx.1]; dsimp only
+  generalize UI.bits (2 ^ s) x = bits at *
+  obtain ⟨g, hg1, hg2, hg3⟩ := (powerOfTwo_spec hs n (bits / 3 + 1)).2 (by omega)
+  rw [hg1]; dsimp only [Outcome.bind]
+  have hXpos : 1 ≤ U (2 ^ s) x := by have := Nat.two_pow_pos 128; omega
+  have hp : 1 ≤ 2 ^ (bits / 3 + 1) := Nat.two_pow_pos _
+  have hG2 : 2 ^ (bits / 3 + 1) * 2 ^ (bits / 3 + 1) < M (2 ^ s) n := by
+    rw [← Nat.pow_add]; exact two_pow_lt_M (by omega)
+  have hbound : 3 * 2 ^ (bits / 3 + 1) + 7 < M (2 ^ s) n := by
+    have h4 : 2 ^ (bits / 3 + 1 + 4) < M (2 ^ s) n := two_pow_lt_M (by omega)
+    rw [Nat.pow_add] at h4; omega
+  exact fixpoint_spec hXpos (cbrtStep_ok hw hn hx hXpos hG2 hbound (by omega) dbg) hg2 hg3
+    (guess_gt (k := 2) b4) _
+
+/-- `Roots::cbrt` for `BUint`: `r³ ≤ x < (r+1)³`, never panics -/
+theorem U.cbrt_spec {s : Nat} (hs1 : 1 ≤ s) (hs : s < 32) (hn : 1 ≤ n) (hx : WF (2 ^ s) n x)
+    (dbg : Bool) :
+    ∃ r, U.cbrt dbg (2 ^ s) x = .ok r ∧ WF (2 ^ s) n r ∧ IsRoot 3 (U (2 ^ s) x) (U (2 ^ s) r) := by
+  unfold U.cbrt
+  exact shortcut_spec (by decide) hn hx _ (fun hbig => cbrtNewton_spec hs1 hs hn hx hbig dbg)
+
+end cbrt
+
+
+/-! ### `nth_root`, degree `≥ 4` -/
+section nth
+variable {w n : Nat} {x : List Nat}
+
+theorem checkedPow_cases (hw : 1 ≤ w) (hn : 1 ≤ n) {s : List Nat} (hs : WF w n s) (e : Nat) :
+    (U w s ^ e < M w n → ∃ p, UI.checkedPow w s e = some p ∧ WF w n p ∧ U w p = U w s ^ e) ∧
+    (M w n ≤ U w s ^ e → UI.checkedPow w s e = none) := by
+  obtain ⟨h1, h2, h3⟩ := UI.u_overflowingPow_nat hw hn hs e
+  rw [UI.checkedPow_eq hw hn hs e]
+  constructor
+  · intro hlt
+    have hf : (UI.overflowingPow w s e).2 = false := by
+      rw [← Bool.not_eq_true, h3]; omega
+    exact ⟨_, by simp [tupleToOption, hf], h1, by rw [h2, Nat.mod_eq_of_lt hlt]⟩
+  · intro hge
+    have hf : (UI.overflowingPow w s e).2 = true := h3.mpr hge
+    simp [tupleToOption, hf]
+
+/-- the closure of `nth_root` (degree `k + 1 ≥ 4`) computes the Newton step: the power may exceed
+    the width (then the quotient is 0, which is exact), nothing else overflows -/
+theorem nthStep_ok {k : Nat} (hw : 1 ≤ w) (hn : 1 ≤ n) (hx : WF w n x) (hk : 3 ≤ k)
+    (hk32 : k + 1 < 2 ^ 32) (h32 : 2 ^ 32 ≤ M w n) (hX2 : 2 ^ (k + 1) ≤ U w x) {G : Nat}
+    (hbound : 2 * (G * (k + 1)) ≤ M w n) (dbg : Bool) :
+    StepOk w n k (U w x) G (U.nthStep dbg w (k + 1) x) := by
+  intro s hs hinv hG
+  have hs2 : 2 ≤ U w s := by
+    by_contra hc
+    have : (U w s + 1) ^ (k + 1) ≤ 2 ^ (k + 1) := Nat.pow_le_pow_left (by omega) _
+    omega
+  have hXM := U_lt hx
+  have hp8 : 8 ≤ U w s ^ k := by
+    calc 8 = 2 ^ 3 := rfl
+      _ ≤ 2 ^ k := Nat.pow_le_pow_right (by decide) hk
+      _ ≤ U w s ^ k := Nat.pow_le_pow_left hs2 k
+  -- the tail of the closure, for the exact quotient `q`
+  have key : ∀ q, WF w n q → U w q = U w x / U w s ^ k →
+      ∃ r, U.nthStepTail dbg w (k + 1) s q = .ok r ∧ WF w n r ∧ U w r = newton k (U w x) (U w s) := by
+    intro q hq2 hq3
+    unfold U.nthStepTail
+    rw [Nat.add_sub_cancel, hs.1]
+    obtain ⟨mul, m1, m2, m3⟩ := fromU32_ok (w := w) (n := n) (v := k) hw (by omega) (by omega)
+    rw [m1]; dsimp only [Outcome.bind]
+    have hsk : U w s * k ≤ G * (k + 1) := Nat.mul_le_mul hG (by omega)
+    obtain ⟨sm, a1, a2, a3⟩ := uMul_ok hs m2 (by rw [m3]; omega) dbg
+    rw [a1]; dsimp only
+    have hq8 : U w q ≤ U w x / 8 := by rw [hq3]; exact Nat.div_le_div_left hp8 (by decide)
+    obtain ⟨t, t1, t2, t3⟩ := uAdd_ok a2 hq2 (by rw [a3, m3]; omega) dbg
+    rw [t1]; dsimp only
+    obtain ⟨nn, n1, n2, n3⟩ := fromU32_ok (w := w) (n := n) (v := k + 1) hw hk32 (by omega)
+    rw [n1]; dsimp only
+    obtain ⟨r, rem, r1, r2, -, r3, -⟩ := uDivRemUnchecked_ok hw hn t2 n2 (by omega)
+    rw [r1]
+    refine ⟨r, rfl, r2, ?_⟩
+    rw [r3, t3, a3, m3, n3, hq3]; unfold newton; rw [Nat.mul_comm]
+  unfold U.nthStep
+  rw [Nat.add_sub_cancel]
+  obtain ⟨c1, c2⟩ := checkedPow_cases hw hn hs k
+  by_cases hlt : U w s ^ k < M w n
+  · obtain ⟨p, e1, e2, e3⟩ := c1 hlt
+    rw [e1]; dsimp only
+    obtain ⟨q, d1, d2, d3⟩ := uDiv_ok hw hn hx e2 (by omega)
+    rw [d1]; dsimp only [Outcome.bind]
+    exact key q d2 (by rw [d3, e3])
+  · rw [c2 (by omega)]; dsimp only [Outcome.bind]
+    exact key _ (by rw [hx.1]; exact WF_zero w n) (by rw [U_zero, Nat.div_eq_of_lt (by omega)])
+
+theorem nthNewton_spec {s k : Nat} (hs : s < 32) (hn : 1 ≤ n) (hx : WF (2 ^ s) n x)
+    (hk : 3 ≤ k) (hk32 : k + 1 < 2 ^ 32) (hbig : 2 ^ 128 ≤ U (2 ^ s) x) (dbg : Bool) :
+    ∃ r, U.nthNewton dbg (2 ^ s) (k + 1) x = .ok r ∧ WF (2 ^ s) n r ∧
+      IsRoot (k + 1) (U (2 ^ s) x) (U (2 ^ s) r) := by
+  have hw : 1 ≤ 2 ^ s := Nat.two_pow_pos s
+  obtain ⟨b1, b2, b3, b4, b5⟩ := bitLen_facts hx hbig
+  have hW := bits_gt_128 hx hbig
+  have hXpos : 1 ≤ U (2 ^ s) x := by have := Nat.two_pow_pos 128; omega
+  unfold U.nthNewton
+  rw [hx.1]; dsimp only
+  generalize UI.bits (2 ^ s) x = bits at *
+  by_cases hle : bits ≤ k + 1
+  · rw [if_pos hle]
+    refine ⟨_, rfl, WF_one hw hn, ?_⟩
+    rw [U_one hn]
+    exact ⟨by simp; exact hXpos,
+      Nat.lt_of_lt_of_le b4 (Nat.pow_le_pow_right (by decide) hle)⟩
+  · rw [if_neg hle]
+    have hdiv : bits / (k + 1) ≤ bits / 4 := Nat.div_le_div_left (by omega) (by decide)
+    obtain ⟨g, hg1, hg2, hg3⟩ := (powerOfTwo_spec hs n (bits / (k + 1) + 1)).2 (by omega)
+    rw [hg1]; dsimp only [Outcome.bind]
+    have h32 : 2 ^ 32 ≤ M (2 ^ s) n := Nat.pow_le_pow_right (by decide) (by omega)
+    have hX2 : 2 ^ (k + 1) ≤ U (2 ^ s) x :=
+      Nat.le_trans (Nat.pow_le_pow_right (by decide) (by omega)) b5
+    have hbound : 2 * (2 ^ (bits / (k + 1) + 1) * (k + 1)) ≤ M (2 ^ s) n := by
+      have h1 : 2 ^ (bits / (k + 1) + 1) * (k + 1) ≤ 2 ^ (bits / (k + 1) + 1) * 2 ^ 32 :=
+        Nat.mul_le_mul_left _ (by omega)
+      rw [← Nat.pow_add] at h1
+      have h2 : 2 * 2 ^ (bits / (k + 1) + 1 + 32) ≤ M (2 ^ s) n := by
+        rw [← Nat.pow_succ']
+        exact Nat.pow_le_pow_right (by decide) (by omega)
+      omega
+    exact fixpoint_spec hXpos (nthStep_ok hw hn hx hk hk32 h32 hX2 hbound dbg) hg2 hg3
+      (guess_gt (k := k) b4) _
+
+end nth
+
+
+section nthroot
+variable {n : Nat} {x : List Nat}
+
+/-- `Roots::nth_root(0)` panics ("attempt to calculate zeroth root") -/
+theorem U.nthRoot_zero (dbg : Bool) (w : Nat) (x : List Nat) : U.nthRoot dbg w x 0 = .panic := rfl
+
+/-- `Roots::nth_root(d)` for `BUint`, every degree `1 ≤ d ≤ u32::MAX`:
+    `r^d ≤ x < (r+1)^d`, never panics -/
+theorem U.nthRoot_spec {s d : Nat} (hs1 : 1 ≤ s) (hs : s < 32) (hn : 1 ≤ n) (hx : WF (2 ^ s) n x)
+    (hd : 1 ≤ d) (hd32 : d < 2 ^ 32) (dbg : Bool) :
+    ∃ r, U.nthRoot dbg (2 ^ s) x d = .ok r ∧ WF (2 ^ s) n r ∧
+      IsRoot d (U (2 ^ s) x) (U (2 ^ s) r) := by
+  match d, hd, hd32 with
+  | 1, _, _ => exact ⟨x, rfl, hx, IsRoot.one _⟩
+  | 2, _, _ => exact U.sqrt_spec hs hn hx dbg
+  | 3, _, _ => exact U.cbrt_spec hs1 hs hn hx dbg
+  | k + 4, _, h32 =>
+    show ∃ r, (if U.isZeroOrOne x then Outcome.ok x
+          else (toU128 (2 ^ s) x).bind fun
+            | some v => fromU128 (2 ^ s) x.length (Prim.uRoot (k + 4) v)
+            | none => U.nthNewton dbg (2 ^ s) (k + 4) x) = .ok r ∧ _ ∧ _
+    exact shortcut_spec (by omega) hn hx _
+      (fun hbig => nthNewton_spec (k := k + 3) hs hn hx (by omega) h32 hbig dbg)
+
+end nthroot
+
+/-! ### signed roots -/
+
+/-- `r` is the truncated principal `k`-th root of the integer `z`: the magnitude of `r` is the
+    integer root of the magnitude of `z`, the sign is that of `z` -/
+def IsRootZ (k : Nat) (z r : Int) : Prop :=
+  IsRoot k z.natAbs r.natAbs ∧ (0 ≤ z → 0 ≤ r) ∧ (z < 0 → r ≤ 0)
+
+theorem IsRoot.lt_half {k X r H : Nat} (hk : 2 ≤ k) (h : IsRoot k X r) (hX : X ≤ H) (hH : 2 ≤ H) :
+    r < H := by
+  by_contra hc
+  have h2 : 2 ≤ r := by omega
+  have h3 : r ^ 2 ≤ r ^ k := Nat.pow_le_pow_right (by omega) hk
+  have h4 : 2 * r ≤ r ^ 2 := by rw [Nat.pow_two]; exact Nat.mul_le_mul_right r h2
+  have := h.1; omega
+
+section sroot
+variable {s n : Nat} {x : List Nat}
+
+theorem two_le_half (hs1 : 1 ≤ s) (hn : 1 ≤ n) : 4 ≤ M (2 ^ s) n := by
+  have : 2 ≤ 2 ^ s := by
+    calc 2 = 2 ^ 1 := rfl
+      _ ≤ 2 ^ s := Nat.pow_le_pow_right (by decide) hs1
+  exact M_ge_four this hn
+
+/-- a root pattern read as a signed number, when the radicand is at most `2^(BITS-1)` -/
+theorem root_signed {k X : Nat} {r : List Nat} (hs1 : 1 ≤ s) (hn : 1 ≤ n) (hk : 1 ≤ k)
+    (hr : WF (2 ^ s) n r) (h : IsRoot k X (U (2 ^ s) r)) (hX : 2 * X ≤ M (2 ^ s) n)
+    (hX' : k = 1 → 2 * X < M (2 ^ s) n) :
+    S (2 ^ s) r = (U (2 ^ s) r : Int) := by
+  have hM := two_le_half hs1 hn
+  apply S_of_small hr
+  rcases Nat.lt_or_ge k 2 with h1 | h2
+  · have hk1 : k = 1 := by omega
+    subst hk1
+    have := h.1; simp at this; have := hX' rfl; omega
+  · have hw : 1 ≤ 2 ^ s := Nat.two_pow_pos s
+    have hme := M_even hw hn
+    have := h.lt_half (H := M (2 ^ s) n / 2) h2 (by omega) (by omega)
+    omega
+
+/-- `Roots::sqrt` for `BInt` -/
+theorem I.sqrt_spec (hs1 : 1 ≤ s) (hs : s < 32) (hn : 1 ≤ n) (hx : WF (2 ^ s) n x) (dbg : Bool) :
+    (S (2 ^ s) x < 0 → I.sqrt dbg (2 ^ s) x = .panic) ∧
+    (0 ≤ S (2 ^ s) x → ∃ r, I.sqrt dbg (2 ^ s) x = .ok r ∧ WF (2 ^ s) n r ∧
+      IsRootZ 2 (S (2 ^ s) x) (S (2 ^ s) r)) := by
+  have hw : 1 ≤ 2 ^ s := Nat.two_pow_pos s
+  unfold I.sqrt
+  rw [isNegative_eq_decide hw hn hx]
+  constructor
+  · intro h; simp [h]
+  · intro h
+    simp only [show ¬ S (2 ^ s) x < 0 by omega, decide_false, Bool.false_eq_true, if_false]
+    obtain ⟨r, h1, h2, h3⟩ := U.sqrt_spec hs hn hx dbg
+    have hxs := S_of_nonneg hx h
+    have hxr := S_repS hw hn hx
+    have hrs := root_signed hs1 hn (by decide) h2 h3 (by unfold repS at hxr; omega) (by omega)
+    refine ⟨r, h1, h2, ?_, by omega, by omega⟩
+    rw [hrs, hxs]; simpa using h3
+
+/-- the magnitude root of a negative radicand, negated -/
+theorem neg_root {k : Nat} {out r : List Nat} (hs1 : 1 ≤ s) (hn : 1 ≤ n) (hk : 2 ≤ k)
+    (hx : WF (2 ^ s) n x) (hneg : S (2 ^ s) x < 0) (ho : WF (2 ^ s) n out)
+    (hroot : IsRoot k (S (2 ^ s) x).natAbs (U (2 ^ s) out))
+    (hr : S (2 ^ s) r = - S (2 ^ s) out) : IsRootZ k (S (2 ^ s) x) (S (2 ^ s) r) := by
+  have hw : 1 ≤ 2 ^ s := Nat.two_pow_pos s
+  have hxr := S_repS hw hn hx
+  have hos := root_signed hs1 hn (by omega) ho hroot (by unfold repS at hxr; omega) (by omega)
+  refine ⟨?_, by omega, by omega⟩
+  have e : (S (2 ^ s) r).natAbs = U (2 ^ s) out := by rw [hr, hos]; simp
+  rw [e]; exact hroot
+
+/-- `Roots::cbrt` for `BInt`: sign preserved -/
+theorem I.cbrt_spec (hs1 : 1 ≤ s) (hs : s < 32) (hn : 1 ≤ n) (hx : WF (2 ^ s) n x) (dbg : Bool) :
+    ∃ r, I.cbrt dbg (2 ^ s) x = .ok r ∧ WF (2 ^ s) n r ∧ IsRootZ 3 (S (2 ^ s) x) (S (2 ^ s) r) := by
+  have hw : 1 ≤ 2 ^ s := Nat.two_pow_pos s
+  have hw2 : 2 ≤ 2 ^ s := by
+    calc 2 = 2 ^ 1 := rfl
+      _ ≤ 2 ^ s := Nat.pow_le_pow_right (by decide) hs1
+  have hxr := S_repS hw hn hx
+  unfold I.cbrt
+  rw [isNegative_eq_decide hw hn hx]
+  by_cases hneg : S (2 ^ s) x < 0
+  · simp only [hneg, decide_true, if_true]
+    obtain ⟨ua1, ua2⟩ := II.unsignedAbs_spec hw2 hn hx
+    obtain ⟨out, h1, h2, h3⟩ := U.cbrt_spec hs1 hs hn ua1 dbg
+    rw [ua2] at h3
+    rw [h1]; dsimp only [Outcome.bind]
+    have hos := root_signed hs1 hn (by decide) h2 h3 (by unfold repS at hxr; omega) (by omega)
+    have hor := S_repS hw hn h2
+    rw [hos] at hor
+    obtain ⟨r, hr1, hr2, hr3⟩ := iOpNeg_ok hw2 hn h2 (by rw [hos]; unfold repS at *; omega) dbg
+    exact ⟨r, hr1, hr2, neg_root hs1 hn (by decide) hx hneg h2 h3 hr3⟩
+  · simp only [hneg, decide_false, Bool.false_eq_true, if_false]
+    obtain ⟨r, h1, h2, h3⟩ := U.cbrt_spec hs1 hs hn hx dbg
+    have hxs := S_of_nonneg hx (by omega)
+    have hrs := root_signed hs1 hn (by decide) h2 h3 (by unfold repS at hxr; omega) (by omega)
+    refine ⟨r, h1, h2, ?_, by omega, by omega⟩
+    rw [hrs, hxs]; simpa using h3
+
+/-- `Roots::nth_root(d)` for `BInt`, every degree `d ≤ u32::MAX`: panics for `d = 0` and for a
+    negative radicand with even `d`; otherwise the truncated principal root, sign preserved -/
+theorem I.nthRoot_spec (hs1 : 1 ≤ s) (hs : s < 32) (hn : 1 ≤ n) (hx : WF (2 ^ s) n x) {d : Nat}
+    (hd32 : d < 2 ^ 32) (dbg : Bool) :
+    (d = 0 → I.nthRoot dbg (2 ^ s) x d = .panic) ∧
+    (S (2 ^ s) x < 0 → d % 2 = 0 → I.nthRoot dbg (2 ^ s) x d = .panic) ∧
+    (1 ≤ d → (0 ≤ S (2 ^ s) x ∨ d % 2 = 1) →
+      ∃ r, I.nthRoot dbg (2 ^ s) x d = .ok r ∧ WF (2 ^ s) n r ∧
+        IsRootZ d (S (2 ^ s) x) (S (2 ^ s) r)) := by
+  have hw : 1 ≤ 2 ^ s := Nat.two_pow_pos s
+  have hw2 : 2 ≤ 2 ^ s := by
+    calc 2 = 2 ^ 1 := rfl
+      _ ≤ 2 ^ s := Nat.pow_le_pow_right (by decide) hs1
+  have hxr := S_repS hw hn hx
+  unfold I.nthRoot
+  rw [isNegative_eq_decide hw hn hx]
+  by_cases hneg : S (2 ^ s) x < 0
+  · simp only [hneg, decide_true, if_true]
+    refine ⟨fun h => by simp [h], fun _ h => ?_, fun hd hodd => ?_⟩
+    · by_cases h0 : d = 0
+      · simp [h0]
+      · have h1 : d ≠ 1 := by omega
+        simp [h0, h1, h]
+    · have hodd' : d % 2 = 1 := by omega
+      by_cases h1 : d = 1
+      · subst h1
+        refine ⟨x, by simp, hx, IsRoot.one _, by omega, by omega⟩
+      · have h0 : d ≠ 0 := by omega
+        simp only [beq_iff_eq, h0, h1, hodd', if_false, show ¬ (1 = 0) by decide]
+        obtain ⟨ua1, ua2⟩ := II.unsignedAbs_spec hw2 hn hx
+        obtain ⟨out, e1, e2, e3⟩ := U.nthRoot_spec hs1 hs hn ua1 hd hd32 dbg
+        rw [ua2] at e3
+        rw [e1]; simp only [Outcome.map]
+        have hos := root_signed hs1 hn hd e2 e3 (by unfold repS at hxr; omega) (by omega)
+        have hor := S_repS hw hn e2
+        rw [hos] at hor
+        obtain ⟨g1, g2⟩ := (II.overflowingNeg_spec hw2 hn e2).wrapping
+        refine ⟨_, rfl, g1, neg_root hs1 hn (by omega) hx hneg e2 e3 ?_⟩
+        unfold II.wrappingNeg
+        rw [g2, wrapS_of_rep (M_pos _ _) (by rw [hos]; unfold repS at *; omega)]
+  · simp only [hneg, decide_false, Bool.false_eq_true, if_false]
+    refine ⟨fun h => by rw [h]; rfl, fun h => h.elim, fun hd _ => ?_⟩
+    obtain ⟨r, h1, h2, h3⟩ := U.nthRoot_spec hs1 hs hn hx hd hd32 dbg
+    have hxs := S_of_nonneg hx (by omega)
+    have hrs := root_signed hs1 hn hd h2 h3 (by unfold repS at hxr; omega)
+      (by unfold repS at hxr; omega)
+    refine ⟨r, h1, h2, ?_, by omega, by omega⟩
+    rw [hrs, hxs]; simpa using h3
+
+end sroot
+
+
+/-! ### the Spec functions of `Spec/NumTraits.lean` are what they claim to be -/
+
+theorem spec_powLe_eq (b e x : Nat) : Spec.NumT.powLe b e x = decide (b ^ e ≤ x) := by
+  unfold Spec.NumT.powLe
+  by_cases hb : b ≤ 1
+  · rw [if_pos hb]
+    rcases Nat.eq_zero_or_pos e with rfl | he
+    · simp
+    · rw [if_neg (by omega)]
+      rcases Nat.le_one_iff_eq_zero_or_eq_one.mp hb with rfl | rfl
+      · rw [Nat.zero_pow he]
+      · simp
+  · rw [if_neg hb]
+    by_cases he : e > Spec.bitLen x
+    · rw [if_pos he]
+      have h1 := lt_two_pow_bitLen x
+      have h2 : 2 ^ Spec.bitLen x ≤ 2 ^ e := Nat.pow_le_pow_right (by decide) (by omega)
+      have h3 : 2 ^ e ≤ b ^ e := Nat.pow_le_pow_left (by omega) e
+      symm; simp only [decide_eq_false_iff_not]; omega
+    · rw [if_neg he]
+
+theorem bisect_spec (k x : Nat) : ∀ (f lo hi : Nat), lo < hi → hi - lo ≤ 2 ^ f →
+    lo ^ k ≤ x → x < hi ^ k → IsRoot k x (Spec.NumT.bisect k x f lo hi)
+  | 0, lo, hi, h1, h2, h3, h4 => by
+    unfold Spec.NumT.bisect
+    have : hi = lo + 1 := by simp at h2; omega
+    subst this; exact ⟨h3, h4⟩
+  | f + 1, lo, hi, h1, h2, h3, h4 => by
+    unfold Spec.NumT.bisect
+    by_cases hc : hi ≤ lo + 1
+    · rw [if_pos hc]
+      have : hi = lo + 1 := by omega
+      subst this; exact ⟨h3, h4⟩
+    · rw [if_neg hc]; dsimp only
+      rw [spec_powLe_eq]
+      rw [Nat.pow_succ] at h2
+      by_cases hm : ((lo + hi) / 2) ^ k ≤ x
+      · simp only [hm, decide_true, if_true]
+        exact bisect_spec k x f _ hi (by omega) (by omega) hm h4
+      · simp only [hm, decide_false, Bool.false_eq_true, if_false]
+        exact bisect_spec k x f lo _ (by omega) (by omega) h3 (by omega)
+
+/-- `Spec.NumT.iroot` is the integer root -/
+theorem spec_iroot (k x : Nat) (hk : 1 ≤ k) : IsRoot k x (Spec.NumT.iroot k x) := by
+  unfold Spec.NumT.iroot
+  obtain ⟨j, rfl⟩ : ∃ j, k = j + 1 := ⟨k - 1, by omega⟩
+  apply bisect_spec
+  · exact Nat.two_pow_pos _
+  · rw [Nat.pow_succ (n := 2) (m := Spec.bitLen x / (j + 1) + 1)]
+    have := Nat.two_pow_pos (Spec.bitLen x / (j + 1) + 1); omega
+  · rw [Nat.zero_pow (by omega)]; omega
+  · exact guess_gt (k := j) (lt_two_pow_bitLen x)
+
+/-- `Spec.NumT.rootInt` is the truncated principal root of an integer -/
+theorem spec_rootInt (k : Nat) (z : Int) (hk : 1 ≤ k) : IsRootZ k z (Spec.NumT.rootInt k z) := by
+  unfold Spec.NumT.rootInt
+  have h := spec_iroot k z.natAbs hk
+  by_cases hz : z < 0
+  · rw [if_pos hz]; exact ⟨by simpa using h, by omega, by omega⟩
+  · rw [if_neg hz]; exact ⟨by simpa using h, by omega, by omega⟩
+
+/-- two integers that are both the truncated principal root coincide -/
+theorem IsRootZ.unique {k : Nat} {z r r' : Int} (h : IsRootZ k z r) (h' : IsRootZ k z r') :
+    r = r' := by
+  have e := h.1.unique h'.1
+  obtain ⟨-, a1, a2⟩ := h
+  obtain ⟨-, b1, b2⟩ := h'
+  by_cases hz : z < 0
+  · have := a2 hz; have := b2 hz; omega
+  · have := a1 (by omega); have := b1 (by omega); omega
+
+
+
+/-! ## §6 panics of the signed division family, `abs_sub`, `mul_add` -/
+section spanic
+variable {w n : Nat} {a b : List Nat}
+
+/-- a zero divisor panics in every signed division-like trait method -/
+theorem I.div_by_zero (hb : WF w n b) (hb0 : S w b = 0) (dbg : Bool) :
+    I.divRem dbg w a b = .panic ∧ I.divFloor dbg w a b = .panic ∧ I.modFloor dbg w a b = .panic ∧
+    I.divModFloor dbg w a b = .panic ∧ I.isMultipleOf dbg w a b = .panic := by
+  have hz : isZero b = true := (II.isZero_iff_S hb).mpr hb0
+  have h1 : II.div dbg w a b = .panic := by
+    unfold II.div; dsimp only; split <;> rfl
+  have h2 : II.rem dbg w a b = .panic := by
+    unfold II.rem; dsimp only; split <;> rfl
+  have h3 : I.divRem dbg w a b = .panic := by unfold I.divRem; rw [h1]; rfl
+  have h4 : I.divFloor dbg w a b = .panic := by unfold I.divFloor; rw [h3]; rfl
+  have h5 : I.modFloor dbg w a b = .panic := by unfold I.modFloor; rw [h2]; rfl
+  refine ⟨h3, h4, h5, ?_, ?_⟩
+  · unfold I.divModFloor; rw [h4]; rfl
+  · unfold I.isMultipleOf; rw [h5]; rfl
+
+/-- `MIN / -1`: the quotient is not representable; every method of the family panics
+    ("attempt to divide with overflow"), exactly like the primitive integers -/
+theorem I.min_neg_one (hw : 1 ≤ w) (hn : 1 ≤ n) (ha : WF w n a) (hb : WF w n b)
+    (hov : S w a = -((M w n / 2 : Nat) : Int) ∧ S w b = -1) (dbg : Bool) :
+    I.divRem dbg w a b = .panic ∧ I.divFloor dbg w a b = .panic ∧ I.modFloor dbg w a b = .panic := by
+  have hg := (II.ovfGuard_iff hw hn ha hb).mpr hov
+  have h1 : II.div dbg w a b = .panic := by
+    unfold II.div; rw [ha.1]; dsimp only; rw [if_pos hg]
+  have h2 : II.rem dbg w a b = .panic := by
+    unfold II.rem; rw [ha.1]; dsimp only; rw [if_pos hg]
+  have h3 : I.divRem dbg w a b = .panic := by unfold I.divRem; rw [h1]; rfl
+  exact ⟨h3, by unfold I.divFloor; rw [h3]; rfl, by unfold I.modFloor; rw [h2]; rfl⟩
+
+theorem opLe_eq (hw : 1 ≤ w) (hn : 1 ≤ n) (ha : WF w n a) (hb : WF w n b) :
+    Traits.opLe (II.cmp w) a b = decide (S w a ≤ S w b) := by
+  unfold Traits.opLe Traits.partialCmp
+  rw [II.cmp_spec hw hn ha hb]
+  rcases Int.lt_trichotomy (S w a) (S w b) with h | h | h
+  · rw [Int.compare_eq_lt.mpr h]; simp; omega
+  · rw [Int.compare_eq_eq.mpr h]; simp [h]
+  · rw [Int.compare_eq_gt.mpr h]; simp; omega
+
+/-- `Signed::abs_sub`: the positive difference (`0` when `self ≤ other`) -/
+theorem I.absSub_spec (hw : 2 ≤ w) (hn : 1 ≤ n) (ha : WF w n a) (hb : WF w n b) (dbg : Bool) :
+    (S w a ≤ S w b → I.absSub dbg w a b = .ok (zero n)) ∧
+    (S w b < S w a → repS (M w n) (S w a - S w b) →
+      ∃ r, I.absSub dbg w a b = .ok r ∧ WF w n r ∧ S w r = S w a - S w b) := by
+  unfold I.absSub
+  rw [opLe_eq (by omega) hn ha hb, ha.1]
+  constructor
+  · intro h; simp [h]
+  · intro h hrep
+    simp only [show ¬ S w a ≤ S w b by omega, decide_false, Bool.false_eq_true, if_false]
+    exact iOpSub_ok hw hn ha hb hrep dbg
+
+/-- `MulAdd::mul_add` for `BUint`: `self * a + b` when nothing overflows -/
+theorem U.mulAdd_spec {x c : List Nat} (hx : WF w n x) (ha : WF w n a) (hc : WF w n c)
+    (hrep : U w x * U w a + U w c < M w n) (dbg : Bool) :
+    ∃ r, U.mulAdd dbg w x a c = .ok r ∧ WF w n r ∧ U w r = U w x * U w a + U w c := by
+  unfold U.mulAdd
+  obtain ⟨p, h1, h2, h3⟩ := uMul_ok hx ha (by omega) dbg
+  rw [h1]; dsimp only [Outcome.bind]
+  obtain ⟨r, g1, g2, g3⟩ := uAdd_ok h2 hc (by omega) dbg
+  exact ⟨r, g1, g2, by rw [g3, h3]⟩
+
+/-- `MulAdd::mul_add` for `BInt` -/
+theorem I.mulAdd_spec {x c : List Nat} (hw : 2 ≤ w) (hn : 1 ≤ n) (hx : WF w n x) (ha : WF w n a)
+    (hc : WF w n c) (hrep1 : repS (M w n) (S w x * S w a))
+    (hrep2 : repS (M w n) (S w x * S w a + S w c)) (dbg : Bool) :
+    ∃ r, I.mulAdd dbg w x a c = .ok r ∧ WF w n r ∧ S w r = S w x * S w a + S w c := by
+  unfold I.mulAdd
+  obtain ⟨p, h1, h2, h3⟩ := iMul_ok hw hn hx ha hrep1 dbg
+  rw [h1]; dsimp only [Outcome.bind]
+  obtain ⟨r, g1, g2, g3⟩ := iOpAdd_ok hw hn h2 hc (by rw [h3]; exact hrep2) dbg
+  exact ⟨r, g1, g2, by rw [g3, h3]⟩
+
+end spanic
+
+
+/-- the floor remainder takes the divisor's sign and is smaller in magnitude -/
+theorem fmod_sign (a b : Int) (hb : b ≠ 0) :
+    (0 < b → 0 ≤ a.fmod b ∧ a.fmod b < b) ∧ (b < 0 → b < a.fmod b ∧ a.fmod b ≤ 0) := by
+  have h := fmod_of_tmod a b hb
+  obtain ⟨-, f2, -, -, -, -⟩ := tdiv_facts a b hb
+  rw [h]
+  constructor <;> intro hb' <;> split_ifs <;> omega
+
+/-- floor division and floor remainder recompose the dividend -/
+theorem fdiv_fmod (a b : Int) : b * a.fdiv b + a.fmod b = a := Int.mul_fdiv_add_fmod a b
+
+
 end NumT
 end Bnum
